@@ -311,6 +311,16 @@ def check_default_incoming(rep):
         sys.stdin = old
 
 
+def _safe_repr(v):
+    """repr() for reports: some NONTEXT objects refuse to be printed, and a broken helper may
+    hand one of them back."""
+    try:
+        return repr(v)
+    except Exception as e:
+        return '<%s whose repr raises %s>' % (type(v).__name__ if not isinstance(v, tuple)
+                                              else 'tuple holding an object', type(e).__name__)
+
+
 def run(ctx):
     rep = ctx.new_report()
     from vlib.ref import noise as _noise
@@ -352,7 +362,7 @@ def run(ctx):
             got = call(fn, bad)
             if got != ('TypeError',):
                 rep.fail('type-contract:%s' % fn.__name__, {'argument': 'NONTEXT[%d] (%s)' % (
-                    NONTEXT.index(bad), type(bad).__name__), 'got': repr(got)},
+                    NONTEXT.index(bad), type(bad).__name__), 'got': _safe_repr(got)},
                          {'nontext': [fn.__name__, NONTEXT.index(bad)]})
     check_default_incoming(rep)
     # to_slug over every Unicode scalar value
